@@ -208,6 +208,12 @@ def parseRouteRepr (s : String) : Except Err (String × Nat) :=
 
 /-! ## Specification level: what an item depends on (property C20) -/
 
+/-- the route `name[:version]` of namespace `ns` -/
+def routeTargets (g : Graph) (ns : String) (repr : String) : List Id :=
+  match parseRouteRepr repr with
+  | .ok (name, v) => (g.routeByName ns name v).toList
+  | .error _ => []
+
 /-- What a doc reference denotes (lang_ref "Documentation"): ``:type:`[ns.]T` `` a struct or union,
 ``:field:`[[ns.]T.]f` `` the type (or alias) owning the field - nothing for a field of the documented
 type itself -, ``:route:`[ns.]r[:v]` `` a route; `:link:` and `:val:` nothing. `ns` is the namespace
@@ -224,29 +230,30 @@ def refTargets (g : Graph) (ns : String) (r : DocRef) : List Id :=
     | [n, t, _] => ((g.typeByName n t).orElse fun _ => g.aliasByName n t).toList
     | _ => []
   else if r.tag == "route" then
-    let (n, rest) := match splitFirst '.' r.val with
-      | some (n, rest) => (n, rest)
-      | none => (ns, r.val)
-    match parseRouteRepr rest with
-    | .ok (name, v) => (g.routeByName n name v).toList
-    | .error _ => []
+    match splitFirst '.' r.val with
+    | some (n, rest) => routeTargets g n rest
+    | none => routeTargets g ns r.val
   else []
 
 def docTargets (g : Graph) (ns : String) (refs : List DocRef) : List Id :=
   refs.flatMap (refTargets g ns)
 
-/-- Everything the item `n` refers to: field / tag types through lists, maps and nullables (aliases
-are nodes of their own), parent, enumerated subtypes, unions of tag defaults, the alias target, the
-route signature, and the types, field owners and routes mentioned in its docs. -/
+/-- Everything the item `n` refers to. A data type: field / tag types through lists, maps and
+nullables (aliases are nodes of their own), parent, enumerated subtypes (structs), unions of tag
+defaults; an alias: its target; a route: its signature; each of them: the types, field owners and
+routes its docs (and the docs of its fields) mention. -/
 def Node.succ (g : Graph) (n : Node) : List Id :=
-  n.fields.flatMap (fun f => f.ty.refs)
-  ++ n.parent.toList
-  ++ n.subtypes
-  ++ n.fields.flatMap (fun f => f.tagDefault.toList)
-  ++ n.target.refs
-  ++ n.arg.refs ++ n.result.refs ++ n.error.refs
+  (match n.kind with
+   | .struct =>
+     n.fields.flatMap (fun f => f.ty.refs) ++ n.parent.toList ++ n.subtypes
+       ++ n.fields.flatMap (fun f => f.tagDefault.toList)
+       ++ n.fields.flatMap (fun f => docTargets g n.ns f.docRefs)
+   | .union =>
+     n.fields.flatMap (fun f => f.ty.refs) ++ n.parent.toList
+       ++ n.fields.flatMap (fun f => docTargets g n.ns f.docRefs)
+   | .alias => n.target.refs
+   | .route => n.arg.refs ++ n.result.refs ++ n.error.refs)
   ++ docTargets g n.ns n.docRefs
-  ++ n.fields.flatMap (fun f => docTargets g n.ns f.docRefs)
 
 def succ (g : Graph) (a : Id) : List Id :=
   match g.node? a with
@@ -255,17 +262,32 @@ def succ (g : Graph) (a : Id) : List Id :=
 
 /-- The edge relation of the property text, one constructor per kind of dependency. -/
 inductive Edge (g : Graph) : Id → Id → Prop where
-  | fieldType {a b n f} : g.node? a = some n → f ∈ n.fields → b ∈ f.ty.refs → Edge g a b
-  | parent {a b n} : g.node? a = some n → n.parent = some b → Edge g a b
-  | subtype {a b n} : g.node? a = some n → b ∈ n.subtypes → Edge g a b
-  | tagDefault {a b n f} : g.node? a = some n → f ∈ n.fields → f.tagDefault = some b → Edge g a b
-  | aliasTarget {a b n} : g.node? a = some n → b ∈ n.target.refs → Edge g a b
-  | routeArg {a b n} : g.node? a = some n → b ∈ n.arg.refs → Edge g a b
-  | routeResult {a b n} : g.node? a = some n → b ∈ n.result.refs → Edge g a b
-  | routeError {a b n} : g.node? a = some n → b ∈ n.error.refs → Edge g a b
+  | fieldType {a b n f} : g.node? a = some n → n.isType = true → f ∈ n.fields → b ∈ f.ty.refs → Edge g a b
+  | parent {a b n} : g.node? a = some n → n.isType = true → n.parent = some b → Edge g a b
+  | subtype {a b n} : g.node? a = some n → n.kind = .struct → b ∈ n.subtypes → Edge g a b
+  | tagDefault {a b n f} : g.node? a = some n → n.kind = .struct → f ∈ n.fields → f.tagDefault = some b →
+      Edge g a b
+  | aliasTarget {a b n} : g.node? a = some n → n.kind = .alias → b ∈ n.target.refs → Edge g a b
+  | routeArg {a b n} : g.node? a = some n → n.kind = .route → b ∈ n.arg.refs → Edge g a b
+  | routeResult {a b n} : g.node? a = some n → n.kind = .route → b ∈ n.result.refs → Edge g a b
+  | routeError {a b n} : g.node? a = some n → n.kind = .route → b ∈ n.error.refs → Edge g a b
   | docRef {a b n r} : g.node? a = some n → r ∈ n.docRefs → b ∈ refTargets g n.ns r → Edge g a b
-  | fieldDocRef {a b n f r} : g.node? a = some n → f ∈ n.fields → r ∈ f.docRefs →
+  | fieldDocRef {a b n f r} : g.node? a = some n → n.isType = true → f ∈ n.fields → r ∈ f.docRefs →
       b ∈ refTargets g n.ns r → Edge g a b
+
+/-- The references an item HOLDS - what generated code dereferences when it loads: field / tag
+types, parent, enumerated subtypes, alias target, route signature (no docs, no tag defaults). -/
+def Node.hardRefs (n : Node) : List Id :=
+  match n.kind with
+  | .struct => n.fields.flatMap (fun f => f.ty.refs) ++ n.parent.toList ++ n.subtypes
+  | .union => n.fields.flatMap (fun f => f.ty.refs) ++ n.parent.toList
+  | .alias => n.target.refs
+  | .route => n.arg.refs ++ n.result.refs ++ n.error.refs
+
+def hardRefs (g : Graph) (a : Id) : List Id :=
+  match g.node? a with
+  | some n => n.hardRefs
+  | none => []
 
 /-- `addAll S xs`: `S` followed by the elements of `xs` not yet present, without repetition. -/
 def addAll (S : List Id) : List Id → List Id
@@ -285,9 +307,27 @@ def closureBy (sc : Id → List Id) (n : Nat) (seeds : List Id) : List Id := ite
 /-- The reference closure: fuel = number of nodes (`Props/C20: closure_closed` shows it suffices). -/
 def closure (g : Graph) (seeds : List Id) : List Id := closureBy (succ g) g.nodes.length seeds
 
-/-- every id mentioned by a node is a node; every list of a namespace names nodes -/
+/-- the id of a node is `"ns.Name"` / `"ns.route:version"` -/
+def Node.idOk (n : Node) : Bool :=
+  n.id == (if n.kind == .route then routeId n.ns n.name n.version else typeId n.ns n.name)
+
+/-- only data types have a parent or fields -/
+def Node.kindOk (n : Node) : Bool := n.isType || (n.parent.isNone && n.fields.isEmpty)
+
+/-- `id` names a node of namespace `ns` that satisfies `p` -/
+def Graph.listed (g : Graph) (ns : String) (p : Node → Bool) (id : Id) : Bool :=
+  match g.node? id with
+  | some nd => p nd && nd.ns == ns
+  | none => false
+
+/-- Well-formedness of a dump: ids are as documented, only data types have parents and fields,
+every id mentioned by a node is a node, every namespace lists routes / data types / aliases of its
+own. -/
 def Graph.refsOk (g : Graph) : Bool :=
-  g.nodes.all (fun n => (n.succ g).all (fun b => g.ids.contains b))
+  g.nodes.all (fun n => n.idOk && n.kindOk && (n.succ g).all (fun b => g.ids.contains b))
+  && g.namespaces.all (fun n =>
+      n.routes.all (g.listed n.name Node.isRoute) && n.dataTypes.all (g.listed n.name Node.isType)
+      && n.aliases.all (g.listed n.name Node.isAlias))
 
 /-! ## The whitelist -/
 
@@ -506,6 +546,15 @@ structure St where
   routes : List Id := []
 deriving Repr, Inhabited
 
+/-- the effect of one invocation on an unseen argument: `seen.add(x)`, `output_types[..].append(x)` for a
+struct or union, `output_routes[..].add(route)` for the routes its docs mention -/
+def St.visit (g : Graph) (st : St) (it : Item) (rts : List Id) : St :=
+  { seen := it.key :: st.seen
+    types := match it with
+      | .node id => if g.isTypeId id then st.types ++ [id] else st.types
+      | .field .. => st.types
+    routes := st.routes ++ rts }
+
 /-- The recursion of `_find_dependencies_recursive` with its call stack made explicit: the pending
 calls, innermost first. A call on a seen argument returns at once; otherwise the argument is marked
 and its calls are made before the pending ones. `fuel` bounds the number of calls. -/
@@ -517,13 +566,7 @@ def dfs (g : Graph) : Nat → List Item → St → Except Err St
     else
       match expand g it with
       | .error e => .error e
-      | .ok (kids, rts) =>
-        dfs g fuel (kids ++ rest)
-          { seen := it.key :: st.seen
-            types := match it with
-              | .node id => if g.isTypeId id then st.types ++ [id] else st.types
-              | .field .. => st.types
-            routes := st.routes ++ rts }
+      | .ok (kids, rts) => dfs g fuel (kids ++ rest) (st.visit g it rts)
 
 /-- size of the dump: bounds the number of distinct arguments and the calls one invocation makes -/
 def Graph.weight (g : Graph) : Nat :=
